@@ -18,6 +18,13 @@ Definition lstep (s : lru) (o : hop) : lru * hout :=
   | HRemoveLru => let '(s1, r, _) := Lru.remove_lru s in (s1, OEnt r)
   | HPurge => (fst (Lru.purge s), OUnit)
   | HResize c => let '(s1, _, _) := Lru.resize s c in (s1, OUnit)
+  | HPeekMut k w => let '(s1, r) := Lru.peek_mut s k w in (s1, OVal r)
+  | HContains k => (s, OBool (Lru.contains s k))
+  | HGetLru w => let '(s1, r) := Lru.get_lru_mut s w in (s1, OEnt r)
+  | HPeekLru w => let '(s1, r) := Lru.peek_lru_mut s w in (s1, OEnt r)
+  | HPeekMru w => let '(s1, r) := Lru.peek_mru_mut s w in (s1, OEnt r)
+  | HPeekMutOrPut k v w => let '(s1, a, b, _) := Lru.peek_mut_or_put s k v w in (s1, OValPut a b)
+  | HContainsOrPut k v => let '(s1, a, b, _) := Lru.contains_or_put s k v in (s1, OBoolPut a b)
   end.
 
 Fixpoint lrun (s : lru) (os : list hop) : lru * list hout :=
@@ -65,21 +72,34 @@ Proof.
   rewrite in_app_iff in *. cbn [In]. intros [H|[H|H]]; [apply C; now left|congruence|apply C; now right].
 Qed.
 
+Lemma set_val_opt_split (l1 : list (addr * entry)) a k v l2 w :
+  NoDup (keys (entries (l1 ++ (a, (k, v)) :: l2))) ->
+  entries (l1 ++ (a, (k, wval w v)) :: l2) = set_val_opt k w (entries (l1 ++ (a, (k, v)) :: l2)).
+Proof.
+  destruct w as [w|]; cbn [wval set_val_opt]; [|reflexivity].
+  rewrite !entries_app. cbn [entries map snd]. fold (entries l1) (entries l2).
+  induction l1 as [|[b [kb vb]] t IH]; cbn [entries map snd app set_val]; intros Hnd.
+  - now rewrite Z.eqb_refl.
+  - cbn [keys map fst] in Hnd. fold (keys (entries t ++ (k, v) :: entries l2)) in Hnd.
+    apply NoDup_cons_iff in Hnd. destruct Hnd as [Hnotin Hnd].
+    destruct (Z.eqb_spec k kb) as [->|Hne].
+    + exfalso. apply Hnotin. rewrite keys_app. apply in_or_app. right. now left.
+    + f_equal. apply IH. exact Hnd.
+Qed.
+
 Ltac keepR := split; [eassumption|split; [eassumption|split; [eassumption|eassumption]]].
 
-(** ** one step *)
-Theorem step_refines h q s o :
+(** ** put *)
+Lemma put_refines h q s k v :
   R h q s ->
-  exists h' q', hstep h q o = HOk (h', q', snd (lstep s o)) /\ R h' q' (fst (lstep s o)) /\
+  exists h' q', h_put h q k v = HOk (h', q', snd (fst (Lru.put s k v))) /\ R h' q' (fst (fst (Lru.put s k v))) /\
                 hhead q' = hhead q /\ htail q' = htail q /\ fresh h <= fresh h'.
 Proof.
   intros (l & Hwf & Ht & El & Ec). pose proof Hwf as (Hc & Hi & Hnd).
-  destruct o as [k v|k w|k|k| | |c]; cbn [hstep lstep].
-  - (* put *)
     unfold Lru.put. rewrite <- El.
     destruct (Base.find k (entries l)) as [old|] eqn:Hf.
     + destruct (find_split l k old Hf) as (l1 & a & l2 & ->).
-      destruct (h_put_update h q l1 a k old l2 v Hwf) as (h' & -> & Hwf' & Ef & Hfr). cbn [hbind fst snd].
+      destruct (h_put_update h q l1 a k old l2 v Hwf) as (h' & Eput & Hwf' & Ef & Hfr). rewrite Eput. cbn [fst snd].
       do 2 eexists. split; [reflexivity|]. split; [|split; [reflexivity|split; [reflexivity|lia]]].
       exists ((a, (k, v)) :: l1 ++ l2). split; [exact Hwf'|]. split; [|split; [|exact Ec]].
       * intros x Ho.
@@ -89,7 +109,7 @@ Proof.
       * cbn [with_items items]. unfold touch. destruct (find_entries_split l1 a k old l2 Hnd) as [_ ->].
         cbn [entries map snd]. now rewrite entries_app.
     + rewrite <- Ec. destruct (Nat.eqb_spec (hcap q) 0) as [E0|N0].
-      * rewrite (h_put_cap0 h q l k v Hwf Hf E0). cbn [hbind fst snd].
+      * rewrite (h_put_cap0 h q l k v Hwf Hf E0). cbn [fst snd].
         do 2 eexists. split; [reflexivity|]. split; [|split; [reflexivity|split; [reflexivity|lia]]].
         exists l. keepR.
       * unfold llen. rewrite <- El.
@@ -98,7 +118,7 @@ Proof.
         -- destruct (split_last (entries l)) as [[r [ek ev]]|] eqn:Esl.
            ++ destruct (entries_split_last l r (ek, ev) Esl) as (l' & a & -> & <-).
               destruct (h_put_recycle h q l' a ek ev k v Hwf Hf N0 Efull)
-                as (h' & q' & -> & Hwf' & E1 & E2 & E3 & Ef & Hfr). cbn [hbind fst snd].
+                as (h' & q' & Eput & Hwf' & E1 & E2 & E3 & Ef & Hfr). rewrite Eput. cbn [fst snd].
               do 2 eexists. split; [reflexivity|]. split; [|split; [exact E1|split; [exact E2|lia]]].
               exists ((a, (k, v)) :: l'). split; [exact Hwf'|]. split; [|split; [reflexivity|cbn [cap with_items]; congruence]].
               intros x Ho.
@@ -109,7 +129,7 @@ Proof.
               rewrite Hfr by exact Ho'. now apply Ht.
            ++ apply split_last_none in Esl. destruct l; [|discriminate]. cbn in Efull. congruence.
         -- destruct (h_put_new_room h q l k v Hwf Hf N0 Nfull)
-             as (h' & q' & -> & Hwf' & E1 & E2 & E3 & Ef & Hfr). cbn [hbind fst snd].
+             as (h' & q' & Eput & Hwf' & E1 & E2 & E3 & Ef & Hfr). rewrite Eput. cbn [fst snd].
            do 2 eexists. split; [reflexivity|]. split; [|split; [exact E1|split; [exact E2|lia]]].
            exists ((fresh h, (k, v)) :: l). split; [exact Hwf'|]. split; [|split; [cbn [entries map snd with_items items]; try reflexivity; now rewrite <- El|cbn [cap with_items]; congruence]].
            intros x (A & B & C). cbn [addrs map fst In] in C.
@@ -118,6 +138,20 @@ Proof.
            assert (Hxl : ~ In x (addrs l)) by (intros Hin; apply C; now right).
            assert (Ho : outside q l x) by (repeat split; assumption).
            rewrite Hfr by assumption. now apply Ht.
+Qed.
+
+(** ** one step *)
+Theorem step_refines h q s o :
+  R h q s ->
+  exists h' q', hstep h q o = HOk (h', q', snd (lstep s o)) /\ R h' q' (fst (lstep s o)) /\
+                hhead q' = hhead q /\ htail q' = htail q /\ fresh h <= fresh h'.
+Proof.
+  intros (l & Hwf & Ht & El & Ec). pose proof Hwf as (Hc & Hi & Hnd).
+  destruct o as [k v|k w|k|k| | |c|k w|k|w|w|w|k v w|k v]; cbn [hstep lstep].
+  - (* put *)
+    destruct (put_refines h q s k v (ex_intro _ l (conj Hwf (conj Ht (conj El Ec))))) as (h' & q' & -> & HR & E1 & E2 & Ef).
+    cbn [hbind]. destruct (Lru.put s k v) as [[s1 r] cbs]. cbn [fst snd] in *.
+    do 2 eexists. split; [reflexivity|]. auto.
   - (* get_mut *)
     unfold Lru.get_mut. rewrite <- El.
     destruct (Base.find k (entries l)) as [old|] eqn:Hf.
@@ -196,6 +230,99 @@ Proof.
         { rewrite <- (firstn_skipn c l), addrs_app, in_app_iff. tauto. }
         rewrite Hfr; [apply Ht|]; repeat split; assumption.
       * cbn [items]. rewrite <- El. unfold entries. now rewrite firstn_map.
+  - (* peek_mut *)
+    unfold Lru.peek_mut. rewrite <- El.
+    destruct (Base.find k (entries l)) as [old|] eqn:Hf.
+    + destruct (find_split l k old Hf) as (l1 & a & l2 & ->).
+      destruct (h_peek_mut_hit h q l1 a k old l2 w Hwf) as (h' & -> & Hwf' & Ef & Hfr). cbn [hbind fst snd].
+      do 2 eexists. split; [reflexivity|]. split; [|split; [reflexivity|split; [reflexivity|lia]]].
+      eexists. split; [exact Hwf'|]. split; [|split; [|exact Ec]].
+      * intros x Ho. assert (Ho' : outside q (l1 ++ (a, (k, old)) :: l2) x).
+        { eapply outside_perm; [|exact Ho]. intros y. rewrite !addrs_app. cbn [addrs map fst]. auto. }
+        apply outside_split in Ho'. destruct Ho' as (_ & _ & Hxa & _).
+        rewrite Hfr by exact Hxa. apply Ht. eapply outside_perm; [|exact Ho].
+        intros y. rewrite !addrs_app. cbn [addrs map fst]. auto.
+      * cbn [with_items items]. apply set_val_opt_split. exact Hnd.
+    + rewrite (h_peek_mut_miss h q l k w Hwf Hf). cbn [hbind fst snd].
+      do 2 eexists. split; [reflexivity|]. split; [|split; [reflexivity|split; [reflexivity|lia]]].
+      exists l. keepR.
+  - (* contains *)
+    rewrite (h_contains_ok h q l k Hwf). cbn [hbind fst snd]. unfold Lru.contains. rewrite <- El.
+    do 2 eexists. split; [reflexivity|]. split; [|split; [reflexivity|split; [reflexivity|lia]]].
+    exists l. keepR.
+  - (* get_lru / get_lru_mut *)
+    unfold Lru.get_lru_mut. rewrite <- El.
+    destruct (split_last (entries l)) as [[r [ek ev]]|] eqn:Esl.
+    + destruct (entries_split_last l r (ek, ev) Esl) as (l' & a & -> & <-).
+      destruct (h_get_lru_some h q l' a ek ev w Hwf) as (h' & -> & Hwf' & Ef & Hfr). cbn [hbind fst snd].
+      do 2 eexists. split; [reflexivity|]. split; [|split; [reflexivity|split; [reflexivity|lia]]].
+      eexists. split; [exact Hwf'|]. split; [|split; [|exact Ec]].
+      * intros x Ho. assert (Ho' : outside q (l' ++ [(a, (ek, ev))]) x).
+        { eapply outside_perm; [|exact Ho]. intros y. rewrite addrs_app. cbn [addrs map fst In].
+          rewrite in_app_iff. cbn [In]. tauto. }
+        rewrite Hfr by exact Ho'. now apply Ht.
+      * cbn [with_items items entries map snd]. destruct w; reflexivity.
+    + apply split_last_none in Esl. destruct l; [|discriminate].
+      rewrite (h_get_lru_none h q w Hwf). cbn [hbind fst snd].
+      do 2 eexists. split; [reflexivity|]. split; [|split; [reflexivity|split; [reflexivity|lia]]].
+      exists []. keepR.
+  - (* peek_lru / peek_lru_mut *)
+    unfold Lru.peek_lru_mut, Lru.peek_lru, set_last. rewrite <- El.
+    destruct (split_last (entries l)) as [[r [ek ev]]|] eqn:Esl.
+    + destruct (entries_split_last l r (ek, ev) Esl) as (l' & a & -> & <-).
+      destruct (h_peek_lru_some h q l' a ek ev w Hwf) as (h' & -> & Hwf' & Ef & Hfr). cbn [hbind fst snd].
+      do 2 eexists. split; [reflexivity|]. split; [|split; [reflexivity|split; [reflexivity|lia]]].
+      eexists. split; [exact Hwf'|]. split; [|split; [|exact Ec]].
+      * intros x Ho. assert (Ho' : outside q (l' ++ [(a, (ek, ev))]) x).
+        { eapply outside_perm; [|exact Ho]. intros y. rewrite !addrs_app. cbn [addrs map fst]. auto. }
+        destruct (outside_split _ _ _ _ _ _ Ho') as (_ & _ & Hxa & _). rewrite Hfr by exact Hxa. now apply Ht.
+      * cbn [with_items items]. rewrite entries_app. cbn [entries map snd].
+        destruct w; cbn [wval]; [reflexivity|]. now rewrite entries_app.
+    + apply split_last_none in Esl. destruct l; [|discriminate].
+      rewrite (h_peek_lru_none h q w Hwf). cbn [hbind fst snd].
+      do 2 eexists. split; [reflexivity|]. split; [|split; [reflexivity|split; [reflexivity|lia]]].
+      exists []. split; [exact Hwf|split; [exact Ht|split; [|exact Ec]]].
+      cbn [with_items items]. destruct w; first [reflexivity|now rewrite <- El|now rewrite El].
+  - (* peek_mru / peek_mru_mut / get_mru / get_mru_mut *)
+    unfold Lru.peek_mru_mut, Lru.peek_mru, set_hd. rewrite <- El.
+    destruct l as [|[a [ek ev]] l'].
+    + rewrite (h_peek_mru_none h q w Hwf). cbn [hbind fst snd entries map hd_error].
+      do 2 eexists. split; [reflexivity|]. split; [|split; [reflexivity|split; [reflexivity|lia]]].
+      exists []. split; [exact Hwf|split; [exact Ht|split; [|exact Ec]]].
+      cbn [with_items items]. destruct w; first [reflexivity|now rewrite <- El|now rewrite El].
+    + destruct (h_peek_mru_some h q a ek ev l' w Hwf) as (h' & -> & Hwf' & Ef & Hfr). cbn [hbind fst snd].
+      cbn [entries map snd hd_error].
+      do 2 eexists. split; [reflexivity|]. split; [|split; [reflexivity|split; [reflexivity|lia]]].
+      eexists. split; [exact Hwf'|]. split; [|split; [|exact Ec]].
+      * intros x Ho. assert (Hxa : x <> a).
+        { destruct Ho as (_ & _ & C). intros ->. apply C. now left. }
+        rewrite Hfr by exact Hxa. now apply Ht.
+      * cbn [with_items items entries map snd]. now destruct w.
+  - (* peek_or_put / peek_mut_or_put *)
+    unfold h_peek_mut_or_put, Lru.peek_mut_or_put. rewrite <- El.
+    destruct (Base.find k (entries l)) as [old|] eqn:Hf.
+    + destruct (find_split l k old Hf) as (l1 & a & l2 & ->).
+      destruct (h_peek_mut_hit h q l1 a k old l2 w Hwf) as (h' & -> & Hwf' & Ef & Hfr). cbn [hbind fst snd].
+      do 2 eexists. split; [reflexivity|]. split; [|split; [reflexivity|split; [reflexivity|lia]]].
+      eexists. split; [exact Hwf'|]. split; [|split; [|exact Ec]].
+      * intros x Ho. assert (Ho' : outside q (l1 ++ (a, (k, old)) :: l2) x).
+        { eapply outside_perm; [|exact Ho]. intros y. rewrite !addrs_app. cbn [addrs map fst]. auto. }
+        apply outside_split in Ho'. destruct Ho' as (_ & _ & Hxa & _).
+        rewrite Hfr by exact Hxa. apply Ht. eapply outside_perm; [|exact Ho].
+        intros y. rewrite !addrs_app. cbn [addrs map fst]. auto.
+      * cbn [with_items items]. apply set_val_opt_split. exact Hnd.
+    + rewrite (h_peek_mut_miss h q l k w Hwf Hf). cbn [hbind].
+      destruct (put_refines h q s k v (ex_intro _ l (conj Hwf (conj Ht (conj El Ec))))) as (h' & q' & -> & HR & E1 & E2 & Ef).
+      cbn [hbind]. destruct (Lru.put s k v) as [[s1 r] cbs]. cbn [fst snd] in *.
+      do 2 eexists. split; [reflexivity|]. auto.
+  - (* contains_or_put *)
+    unfold h_contains_or_put, Lru.contains_or_put. rewrite (h_contains_ok h q l k Hwf). cbn [hbind]. rewrite <- El.
+    destruct (mem k (entries l)) eqn:Hm.
+    + cbn [fst snd]. do 2 eexists. split; [reflexivity|]. split; [|split; [reflexivity|split; [reflexivity|lia]]].
+      exists l. keepR.
+    + destruct (put_refines h q s k v (ex_intro _ l (conj Hwf (conj Ht (conj El Ec))))) as (h' & q' & -> & HR & E1 & E2 & Ef).
+      cbn [hbind]. destruct (Lru.put s k v) as [[s1 r] cbs]. cbn [fst snd] in *.
+      do 2 eexists. split; [reflexivity|]. auto.
 Qed.
 
 (** ** whole histories *)
